@@ -61,6 +61,19 @@ class DOpts(DBase):
         if not isinstance(self.opts, immutabledict):
             object.__setattr__(self, "opts", immutabledict(self.opts))
 
+
+
+@expr_dataclass(init=False)
+class DInit(Expression):
+    """decorated with init=False: brings its own __init__ (like nodes that normalise their
+    arguments); its fields are just as frozen as those of a default-decorated class"""
+    lo: object
+    hi: object
+
+    def __init__(self, lo, hi):
+        object.__setattr__(self, "lo", lo)
+        object.__setattr__(self, "hi", hi)
+
 # }}}
 
 
@@ -160,7 +173,7 @@ class SubPoly(_polynomial()):
 
 
 USER_CLASSES = {c.__name__: c for c in (
-    DBase, DMid, DLeaf, DTwin, DOpts, LBase, LMid, LLeaf, MAlias, MDeep, MExtra, MExtraSub, MVar,
+    DBase, DMid, DLeaf, DTwin, DOpts, DInit, LBase, LMid, LLeaf, MAlias, MDeep, MExtra, MExtraSub, MVar,
     MSum, SubPoly)}
 USER_CLASSES.update(K.USER_CLASSES)
 
